@@ -220,8 +220,16 @@ func c03Run(r *core.Run, p C03Case) {
 	case "extreme":
 		for _, e := range c03Extremes() {
 			if e.name == p.File {
-				data := ref.EncodeXZStream(ref.CheckCRC32, []ref.XZBlockSpec{{LZMA2: e.lz2, Plain: e.plain, DictCode: dictCodeFor(4096)}})
-				c03Judge(r, p, data, e.plain, "size-field-extreme", fmt.Sprintf("chunk size fields at their limits: %s, ReaderConfig.DictCap=%d", e.name, p.DictCap))
+				// Cont[0] selects the size fields of the block header (multi-byte integers: the block is large)
+				sf := 0
+				if len(p.Cont) > 0 {
+					sf = p.Cont[0]
+				}
+				data := ref.EncodeXZStream(ref.CheckCRC32, []ref.XZBlockSpec{{LZMA2: e.lz2, Plain: e.plain, DictCode: dictCodeFor(4096), CompField: sf&1 != 0, UncompField: sf&2 != 0},
+					{LZMA2: ref.EncodeLZMA2Simple(c03Text[:40], ref.Props{LC: 3, LP: 0, PB: 2}, 100), Plain: c03Text[:40], DictCode: 0, CompField: sf&1 != 0}})
+				plain := append(append([]byte(nil), e.plain...), c03Text[:40]...)
+				c03Judge(r, p, data, plain, "size-field-extreme", fmt.Sprintf("chunk size fields at their limits: %s, block size fields %d, ReaderConfig.DictCap=%d", e.name, sf, p.DictCap))
+				return
 			}
 		}
 	case "corpus":
@@ -479,7 +487,9 @@ func runC03(r *core.Run) {
 	// (f) chunk size fields at their limits
 	for _, e := range c03Extremes() {
 		for _, dc := range []int{4096, 1 << 22} {
-			cases = append(cases, C03Case{Kind: "extreme", File: e.name, DictCap: dc})
+			for sf := 0; sf < 4; sf++ {
+				cases = append(cases, C03Case{Kind: "extreme", File: e.name, DictCap: dc, Cont: []int{sf}})
+			}
 		}
 	}
 	// (e) corpus × DictCap, fresh liblzma encodings
